@@ -1,14 +1,17 @@
 #!/bin/bash
 # runs /repo's test suite (guard off) and compares with /root/.vp/BASELINE.json stable_pass
 export GOFLAGS=-mod=mod GOPROXY=off GOSUMDB=off
-cp /repo/go.mod /tmp/kv-go.mod.bak; cp /repo/go.sum /tmp/kv-go.sum.bak
-(cd /repo && go test -mod=mod -json -vet=off -count=1 -timeout 25m ./... > /tmp/kv-baseline.json 2>/tmp/kv-baseline.err)
-cp /tmp/kv-go.mod.bak /repo/go.mod; cp /tmp/kv-go.sum.bak /repo/go.sum
+R=${BASE_REPO:-/repo}
+cp $R/go.mod /tmp/kv-go.mod.bak.$$; cp $R/go.sum /tmp/kv-go.sum.bak.$$
+(cd $R && go test -mod=mod -json -vet=off -count=1 -timeout 25m ./... > /tmp/kv-baseline.$$.json 2>/tmp/kv-baseline.err)
+cp /tmp/kv-go.mod.bak.$$ $R/go.mod; cp /tmp/kv-go.sum.bak.$$ $R/go.sum; rm -f /tmp/kv-go.mod.bak.$$ /tmp/kv-go.sum.bak.$$
+export KVB=/tmp/kv-baseline.$$.json
 python3 - <<'PY'
 import json
 base=set(json.load(open('/root/.vp/BASELINE.json'))['stable_pass'])
 passed=set()
-for l in open('/tmp/kv-baseline.json'):
+import os
+for l in open(os.environ['KVB']):
     try: e=json.loads(l)
     except: continue
     if e.get('Action')=='pass' and e.get('Test'):
